@@ -124,13 +124,16 @@ func checkSet(scen string, in SetIn) *mc.Violation {
 
 // ---------- GetPossibilities / GetAllPossibilities / GetSubstvars ----------
 
-// alternative shapes: 0 substvar, 1 unrestricted, 2 [x], 3 [!x], 4 [y], 5 [x y]
+// alternative shapes: 0 substvar, 1 unrestricted, 2 [x], 3 [!x], 4 [y], 5 [x y], 6-9 with architecture qualifiers
 type PossIn struct {
 	Rels [][]int // per relation, the alternative shapes
 	Arch string  // x, y or z concrete names
 }
 
-var shapeText = []string{"${v%d}", "p%d", "p%d [amd64]", "p%d [!amd64]", "p%d [i386]", "p%d [amd64 i386]"}
+var shapeText = []string{"${v%d}", "p%d", "p%d [amd64]", "p%d [!amd64]", "p%d [i386]", "p%d [amd64 i386]",
+	// an architecture QUALIFIER says which architecture's package satisfies the dependency; it does not restrict where the
+	// dependency applies, so it must not influence the selection
+	"p%d:i386", "p%d:any [amd64]", "p%d:amd64 [!amd64]", "p%d:native (>= 1) [i386] <!x>"}
 
 func shapeAdmits(shape int, arch string) bool {
 	switch shape {
@@ -144,6 +147,14 @@ func shapeAdmits(shape int, arch string) bool {
 		return arch == "i386"
 	case 5:
 		return arch == "amd64" || arch == "i386"
+	case 6:
+		return true
+	case 7:
+		return arch == "amd64"
+	case 8:
+		return arch != "amd64"
+	case 9:
+		return arch == "i386"
 	}
 	return false
 }
@@ -364,11 +375,12 @@ func Run(r *mc.Run) {
 
 	// 3: selection
 	var rels [][]int
-	for a := 0; a < 6; a++ {
+	ns := len(shapeText)
+	for a := 0; a < ns; a++ {
 		rels = append(rels, []int{a})
-		for b := 0; b < 6; b++ {
+		for b := 0; b < ns; b++ {
 			rels = append(rels, []int{a, b})
-			for c := 0; c < 6; c++ {
+			for c := 0; c < ns; c++ {
 				rels = append(rels, []int{a, b, c})
 			}
 		}
